@@ -11,5 +11,3 @@ open XotModel.Props
 #print axioms C18_idem
 #print axioms C18_safe
 #print axioms C18_safe_separated
-#print axioms C18_adjacent_text_counterexample
-#print axioms C18_frameStatement_false
